@@ -23,6 +23,7 @@ class Decl(object):
         self.exogenous = []   # (sector handle, var, value, as_tuple)
         self.ics = []
         self.globals = []
+        self.gold_manual = [] # (sector handle, flow variable) booked with SetGoldPurchases at construction time
         self.unsupported = [] # reasons why the ledger cannot be fully trusted for this program
 
 
@@ -103,6 +104,9 @@ def declare(ops):
             if op['source'] in d.sectors and op['target'] in d.sectors:
                 d.registered.append((op['model'], op['source'], op['target'], op['var'],
                                      op.get('inc_src', True), op.get('inc_dst', True)))
+        elif name == 'SetGoldPurchases':
+            if op['sector'] in d.sectors:
+                d.gold_manual.append((op['sector'], op['var']))
         elif name == 'AddCashFlow':
             d.unsupported.append('AddCashFlow')
         elif name == 'SetExogenous':
